@@ -558,15 +558,15 @@ Lemma mt_cas1_new_eq old :
   mu_try_acquire_after_timeout_or_cancel_cas1_new old = wrap_u 32 (Z.land (wrap_u 32 (wrap_u 32 (old + 1) + 2)) (4294967295 - 32)).
 Proof. reflexivity. Qed.
 Lemma mt_cas1_guard_eq old :
-  mu_try_acquire_after_timeout_or_cancel_cas1_guard old = negb (negb (wrap_u 32 (Z.land old 4294967107) =? 0)).
+  mu_try_acquire_after_timeout_or_cancel_cas1_guard old = negb (negb (wrap_u 32 (Z.land old 4294967043) =? 0)).
 Proof. reflexivity. Qed.
 Definition try_ok (old : Z) : Prop := rng old /\ old mod 2 = 0 /\ b1 old = 0 /\ old / 256 = 0.
 Lemma mt_cas1_guard_facts old : rng old -> mu_try_acquire_after_timeout_or_cancel_cas1_guard old = true -> try_ok old.
 Proof.
   intros R G. rewrite mt_cas1_guard_eq, negb_involutive in G. apply Z.eqb_eq in G. split; [assumption|].
-  split; [apply (zero_test_even old 4294967107); [reflexivity | assumption]|].
-  split; [apply (zero_test_b1 old 4294967107); [reflexivity | assumption]|].
-  apply (zero_test_noreaders old 4294967107); [assumption | reflexivity | assumption].
+  split; [apply (zero_test_even old 4294967043); [reflexivity | assumption]|].
+  split; [apply (zero_test_b1 old 4294967043); [reflexivity | assumption]|].
+  apply (zero_test_noreaders old 4294967043); [assumption | reflexivity | assumption].
 Qed.
 Lemma mt_cas1_view old : try_ok old ->
   let y := mu_try_acquire_after_timeout_or_cancel_cas1_new old in rng y /\ y mod 2 = 1 /\ b1 y = 1 /\ y / 256 = 0.
@@ -1402,7 +1402,7 @@ Proof.
     unfold get_mw, get. rewrite Hs. cbn [mw].
     step_to H0 Hs Hlen Ht; [ownt; eexists; split; [reflexivity|] | same Rw].
     split; [auto|]. split; [exact Hh|].
-    destruct ((band (wrap_u 32 (word w - lt_add_to_acquire (lt_of (mw_mode x)))) MU_ANY_LOCK =? 0) && mw_hadw x); auto.
+    destruct ((band (wrap_u 32 (word w - lt_add_to_acquire (lt_of (mw_mode x)))) MU_ANY_LOCK =? 0) && mw_hadw x && (band (word w) MU_DESIG_WAKER =? 0)); auto.
   - (* MwRelCas *) dmw Hok. destruct Hok as (x & Hx & Ho & Hh & Hadd). subst mx. destr_own Ho.
     pose proof (held_rel_pre _ _ (Hheld (mw_mode x) eq_refl)) as Hp. cas_split w.
     + subst old. pose proof (mw_cas1_trans (mw_mode x) (word w) add Rw Hp Hadd) as Htr.
